@@ -221,13 +221,13 @@ theorem mergeStep_DS {rec : Node → Node → Except Err (Node × Bool)} {sf : F
     {acc : List (Key × Node)} (hacc : dictShapedList acc = true) {k : Key} {v : Node} (hv : dictShaped v = true)
     (hrec : ∀ c, alookup k acc = some c →
       ∃ nw same, rec c v = .ok (nw, same) ∧ Post c v nw ∧ c.isComp = v.isComp) :
-    ∃ x, mergeStep rec sf .dict acc (k, v) = .ok (aset k x acc) ∧ dictShaped x = true ∧
+    ∃ x, mergeStep rec sf .dict [] acc (k, v) = .ok (aset k x acc) ∧ dictShaped x = true ∧
       LoopPt rec (alookup k acc) (some v) (some x) := by
   simp only [mergeStep, getChild, CompKind.isDictFam, if_true]
   cases hl : alookup k acc with
   | none =>
     refine ⟨v, ?_, hv, rfl⟩
-    simp only [reqNew_allNew [] [] v (allNew_DS v hv), setChild, CompKind.isDictFam, if_true, adopt_DS hsf hv]
+    simp only [excBelow_nil, reqNew_allNew [] [] v (allNew_DS v hv), setChild, CompKind.isDictFam, if_true, adopt_DS hsf hv]
   | some c =>
     obtain ⟨nw, same, hr, hpost, hshape⟩ := hrec c hl
     have hnw : dictShaped nw = true := hpost.1
@@ -247,7 +247,7 @@ theorem mergeLoop_DS {rec : Node → Node → Except Err (Node × Bool)} {sf : F
       dictShapedList ocs = true → keysNodup ocs = true →
       (∀ k c v, alookup k acc = some c → alookup k ocs = some v →
         ∃ nw same, rec c v = .ok (nw, same) ∧ Post c v nw ∧ c.isComp = v.isComp) →
-      ∃ acc', mergeLoop rec sf .dict acc ocs = .ok acc' ∧ dictShapedList acc' = true ∧ keysNodup acc' = true ∧
+      ∃ acc', mergeLoop rec sf .dict [] acc ocs = .ok acc' ∧ dictShapedList acc' = true ∧ keysNodup acc' = true ∧
         ∀ k, LoopPt rec (alookup k acc) (alookup k ocs) (alookup k acc')
   | [], acc, hacc, hnd, _, _, _ => by
     refine ⟨acc, rfl, hacc, hnd, ?_⟩
